@@ -246,7 +246,7 @@ func (p *c15pool) enumOps(dom, maxList int) []c15op {
 	for x := 0; x < dom; x++ {
 		ops = append(ops, c15op{kind: 6, x: dom - 1 - x}) // descending arrivals: a later, smaller value has to be sorted in front
 	}
-	ops = append(ops, c15op{kind: 5}, c15op{kind: 5, kv: [][2]int{{0, 1}}}, c15op{kind: 5, kv: [][2]int{{1, 2}, {2, 0}}})
+	ops = append(ops, c15op{kind: 5}, c15op{kind: 5, kv: [][2]int{{0, 1}}}, c15op{kind: 5, kv: [][2]int{{1, 2}, {2, 0}}}, c15op{kind: 5, kv: [][2]int{{0, -1}, {1, -2}}})
 	return ops
 }
 
@@ -297,7 +297,7 @@ func c15randOp(r *rand.Rand, p *c15pool, dom int) c15op {
 			k := c15val(r, dom)
 			if !seen[k] {
 				seen[k] = true
-				kv = append(kv, [2]int{k, r.Intn(4)}) // zero is a legal stored value
+				kv = append(kv, [2]int{k, r.Intn(8) - 3}) // zero and negative counts are legal stored values
 			}
 		}
 		return c15op{kind: 5, kv: kv}
@@ -540,7 +540,7 @@ func c15scale(j run.Job, a *run.Acc) {
 				k := big(dom)
 				if !seen[k] {
 					seen[k] = true
-					kv = append(kv, [2]int{k, cr.Intn(300)})
+					kv = append(kv, [2]int{k, cr.Intn(300) - 20})
 				}
 			}
 			p.apply(c15op{kind: 5, kv: kv})
